@@ -136,6 +136,18 @@ class Repo(object):
         self.canonicalised = []
         for m in self.mods.values():
             m.tree._repo = self
+        # in how many classes of the package is each method name defined
+        # (a name defined once cannot be an override)
+        from . import sym as _sym
+        counts = {}
+        for m in self.mods.values():
+            for c in ast.walk(m.tree):
+                if isinstance(c, ast.ClassDef):
+                    for f in c.body:
+                        if isinstance(f, ast.FunctionDef):
+                            counts[f.name] = counts.get(f.name, 0) + 1
+        _sym.METHOD_DEF_COUNT.clear()
+        _sym.METHOD_DEF_COUNT.update(counts)
         if canonical and os.environ.get('PGSA_NO_CANONICAL') != '1':
             self._canonicalise()
         for m in self.mods.values():
